@@ -400,6 +400,11 @@ func runC04(c *kit.Ctx) {
 
 	// a region replacing a moved/split/merged one becomes visible only once it is marked unavailable
 	markBeforePublish(c)
+	// every exit of the establisher releases the region it made unavailable: requests that wait for it go on
+	// (shared with C09.R2)
+	if est := p.Func("", "client", "establishRegion"); est != nil {
+		tokenTypestate(c, est, p.Global("", "ErrClientClosed"), p.Global("", "establishRegionOverride"))
+	}
 
 	embed(c, "R7", "every attempt is routed by the current location of the row, with the region of the call it is (the rules of C01, run as one rule here)", 30, runC01)
 	embed(c, "R6", "a failing connection fails every request on it with a connection-level error, so that it is retried elsewhere (the rules of C03, run as one rule here)", 30, runC03)
